@@ -64,8 +64,9 @@ Definition maybe_replace (o : opt) (text : bytes) : option bytes :=
       end
   end.
 
-Definition emit_part (o : opt) (text : bytes) : bytes :=
-  if o_json o then json_string text else text.
+(** write_maybe_as_json: text that is not valid UTF-8 cannot become a JSON string ([None]) *)
+Definition emit_part (o : opt) (text : bytes) : option bytes :=
+  if o_json o then (if utf8_valid text then Some (json_string text) else None) else Some text.
 
 (** the output loop of cut_str; [RPanic] where the code would index out of range *)
 Fixpoint out_loop (o : opt) (line : bytes) (fields : list mtch) (bs : list bof) : rres :=
@@ -84,7 +85,7 @@ Fixpoint out_loop (o : opt) (line : bytes) (fields : list mtch) (bs : list bof) 
             | Some a, Some z =>
                 if Nat.leb a z && Nat.leb z (length line) then
                   match maybe_replace o (slice line a z) with
-                  | Some t => ROk (emit_part o t)
+                  | Some t => match emit_part o t with Some p => ROk p | None => RErr end
                   | None => RHang (* unreachable: -c on invalid UTF-8 is cut off earlier *)
                   end
                 else RPanic
@@ -92,7 +93,7 @@ Fixpoint out_loop (o : opt) (line : bytes) (fields : list mtch) (bs : list bof) 
             end
         | None =>
             match fallback_for b (o_fallback o) with
-            | Some f => ROk (emit_part o f)
+            | Some f => match emit_part o f with Some p => ROk p | None => RErr end
             | None => RErr
             end
         end in
